@@ -68,6 +68,23 @@ impl<T> ValuesMatrix<T> {
     pub fn get_size(&self) -> usize {
         self.size
     }
+
+    /// Number of values in every generation, used to remember which values were already visited.
+    pub fn generation_lens(&self) -> Vec<usize> {
+        self.values.iter().map(Vec::len).collect()
+    }
+
+    /// Values that were added to any generation after `seen_lens` was taken, all slices are non-empty.
+    pub fn unseen_slice_iter(&self, seen_lens: Vec<usize>) -> impl Iterator<Item = &[T]> {
+        self.values
+            .iter()
+            .enumerate()
+            .map(move |(idx, generation)| {
+                let seen_len = seen_lens.get(idx).copied().unwrap_or_default();
+                &generation[seen_len.min(generation.len())..]
+            })
+            .filter(|unseen| !unseen.is_empty())
+    }
 }
 
 impl<T: Clone> ValuesMatrix<T> {
@@ -121,8 +138,12 @@ impl<T> NewValuesMatrix<T> {
         self.0.slice_iter(skip)
     }
 
-    pub fn generations_count(&self) -> GenerationIdx {
-        self.0.generations_count()
+    pub fn generation_lens(&self) -> Vec<usize> {
+        self.0.generation_lens()
+    }
+
+    pub fn unseen_slice_iter(&self, seen_lens: Vec<usize>) -> impl Iterator<Item = &[T]> {
+        self.0.unseen_slice_iter(seen_lens)
     }
 
     pub fn last_non_empty_generation_idx(&self) -> GenerationIdx {
